@@ -205,6 +205,22 @@ pub fn manifest_tree(adef: &Value, no_null: bool) -> Result<M, String> {
     for o in list(adef.get("objects"), "\"objects\"")? {
         top.push((name_of(o, "object")?, m_object(o, no_null, 0)?));
     }
+    // Manifests are maps `{ config?: …, *: object }`: the position of `config` among the keys is free
+    // (ADEF key `config_pos`: "first" (default) | "middle" | "last"). The DSL grammar wants it first.
+    if top.len() > 1 && top[0].0 == "config" {
+        match adef.get("config_pos").and_then(Value::as_str) {
+            Some("last") => {
+                let c = top.remove(0);
+                top.push(c);
+            }
+            Some("middle") => {
+                let c = top.remove(0);
+                let at = (top.len() + 1) / 2;
+                top.insert(at, c);
+            }
+            _ => {}
+        }
+    }
     Ok(M::Map(top))
 }
 
